@@ -678,6 +678,18 @@ type mediaSection struct {
 	rids            []*simulcastRid
 }
 
+// dataMediaSectionMid picks the mid of a newly added application media section: the number of
+// media sections so far, or the next number that none of them already uses as its mid (mids taken
+// from a remote description are arbitrary).
+func dataMediaSectionMid(mediaSections []mediaSection) string {
+	for candidate := len(mediaSections); ; candidate++ {
+		mid := strconv.Itoa(candidate)
+		if !slices.ContainsFunc(mediaSections, func(section mediaSection) bool { return section.id == mid }) {
+			return mid
+		}
+	}
+}
+
 func bundleMatchFromRemote(matchBundleGroup *string) func(mid string) bool {
 	if matchBundleGroup == nil {
 		return func(string) bool {
